@@ -53,7 +53,7 @@ def run(report: Report, tier, seed):
     n = 24 if tier == "quick" else 200
     items = [["gen", seed * 100003 + 88000 + i, [4, 6, 8, 9, 10][i % 5]] for i in range(n)] + \
             [["abi", k, v] for k in range(2) for v in (6, 8, 10)] + [["router", k, v] for k in range(1) for v in (6, 8, 10)] + \
-            [["collide", k, v] for k in range(3) for v in (5, 6, 10)] + [["routerfail", k, v] for k in range(2) for v in (7, 8, 10)] + [["siblings", k, v] for k in range(2) for v in (5, 8)] + [["query", k, v] for k in range(2) for v in (6, 8, 10)]
+            [["collide", k, v] for k in range(3) for v in (5, 6, 10)] + [["routerfail", k, v] for k in range(2) for v in (7, 8, 10)] + [["siblings", k, v] for k in range(2) for v in (5, 8)] + [["query", k, v] for k in range(2) for v in (6, 8, 10)] + [["sharedopts", k, v] for k in range(2) for v in (6, 10)]
     histories = {
         "fresh": [],
         "after-successful": ["ok", "router", "tmpl"],
